@@ -32,8 +32,12 @@ RULES = {
     "R8": "serialized references use current names (shared rule S8): no memoised callable (lru_cache/cache/"
     "cached_property) of the serializer, the device-annotation records or the core classes reads state that can change - a "
     "value's name has a setter, so a cached proto or cached name keeps the name from the time of the first call",
+    "R9": "rewrites of device annotations are not lost to a fast path (shared rule S3): wherever the annotation code (cloner "
+    "remapping, drop/cascade helpers of the core classes) decides after a loop whether to use the rebuilt tuple, the flag it "
+    "tests was set monotonically inside the loop - `changed = spec_changed` remembers only the last configuration, so the "
+    "remapped sharding references of earlier configurations are thrown away and keep naming the source graph's values",
 }
-FLOORS = {"R1": 12, "R2": 4, "R3": 4, "R4": 4, "R5": 4, "R6": 6, "R7": 2, "R8": 3}
+FLOORS = {"R1": 12, "R2": 4, "R3": 4, "R4": 4, "R5": 4, "R6": 6, "R7": 2, "R8": 3, "R9": 2}
 EXPLANATION = (
     "Structural checks on the record classes, on every writer of a node's input/output tuples, on the serializer's "
     "name derivation, the C06 write-before-reject analysis for the annotation API, and ordering (dominator) checks in "
@@ -353,6 +357,9 @@ def run(ctx):
                   "graph's value of the same name - the spec then targets a value that is not an input or output of its node",
                   how="stack order is outer→inner; form of the scan classified (direction × first-hit/last-write)", construct=form)
     ctx.require(n7 >= 2, "scope stack scans of the deserializer not found")
+    from . import c13
+
+    c13.rule_s3(ctx, rule="R9", modules=("onnx_ir._cloner", "onnx_ir._core", "onnx_ir._multi_device"), mention="sharding_specs", floor=2)
     from ..shared import rule_s8
 
     rule_s8(ctx, "R8", ("onnx_ir.serde", "onnx_ir._multi_device", "onnx_ir._core"),
